@@ -17,6 +17,8 @@ import (
 	"fmt"
 	"os"
 	"strings"
+	"sync"
+	"time"
 
 	"github.com/anyproto/any-sync/commonspace/object/acl/list"
 	"github.com/anyproto/any-sync/commonspace/object/tree/objecttree"
@@ -30,6 +32,10 @@ import (
 )
 
 const prop = "C10"
+
+const hangAfter = 40 * time.Second
+
+var errHang = errors.New("verif: the operation hangs in a storage call (the write connection was never released)")
 
 func init() { corr.RegisterArea("store", Run) }
 
@@ -67,6 +73,7 @@ type runner struct {
 	dead        bool     // a violation was found: the workload stops
 	lastLen     map[string]int
 	durableSeen map[string]bool
+	mu          sync.Mutex
 }
 
 func Run(r *corr.Run) {
@@ -126,7 +133,16 @@ func (rn *runner) attempt(w *World, f func(w *World) error, img bool, inject int
 		}
 		return nil
 	})
-	err = safeRun(f, w)
+	// a leaked write transaction (lost rollback/commit, or a write issued outside the open transaction)
+	// blocks the single write connection forever: detect the hang instead of waiting for it
+	done := make(chan error, 1)
+	go func() { done <- safeRun(f, w) }()
+	select {
+	case err = <-done:
+	case <-time.After(hangAfter):
+		w.hung = true
+		err = errHang
+	}
 	evs = w.db.rec.stop()
 	if img {
 		d := rn.fx.newDir("img")
@@ -136,6 +152,11 @@ func (rn *runner) attempt(w *World, f func(w *World) error, img bool, inject int
 		imgs = append(imgs, d)
 	}
 	return
+}
+
+func (rn *runner) timed(key string) func() {
+	t := time.Now()
+	return func() { rn.r.CountN("ms."+key, int(time.Since(t).Milliseconds())) }
 }
 
 func (rn *runner) dump(w *World) *Dump {
@@ -191,7 +212,9 @@ func (rn *runner) exec(op *opSpec) {
 		}
 		inject = r.Intn(n)
 	}
+	tRun := rn.timed("run+image")
 	evs, imgs, err := rn.attempt(main, op.run, true, inject)
+	tRun()
 	defer func() {
 		for _, d := range imgs {
 			os.RemoveAll(d)
@@ -225,6 +248,10 @@ func (rn *runner) exec(op *opSpec) {
 			rn.violate(classify(op, "retry", err.Error()), "fault-retry", fmt.Sprintf("%s: the same input is rejected after a failed write: %v", op.kind, err))
 			return
 		}
+		if err == errHang {
+			rn.violate("", "hang", fmt.Sprintf("%s: %v; trace so far: %s", op.kind, err, renderTrace(evs, fx.in.get, fx.collName)))
+			return
+		}
 		r.Fatal(fmt.Sprintf("operation %q failed on the fault-free run: %v", op.desc, err))
 	}
 	rn.lastLen[op.kind] = len(evs)
@@ -234,11 +261,6 @@ func (rn *runner) exec(op *opSpec) {
 	r.CountN("boundaries", len(evs)+1)
 	r.Count(fmt.Sprintf("trace.len.%02d", min(len(evs), 30)))
 
-	// structure, stated directly on the recorded calls
-	if msg := singleTx(evs); msg != "" {
-		rn.violate("", "single-tx", fmt.Sprintf("%s: %s; trace: %s", op.kind, msg, trace))
-		return
-	}
 	// live objects agree with storage after success
 	if p := liveAgrees(main, post, op.trees, op.acl); len(p) > 0 {
 		rn.violate("", "live-after-success", fmt.Sprintf("%s: %s", op.kind, p[0]))
@@ -246,6 +268,7 @@ func (rn *runner) exec(op *opSpec) {
 	}
 
 	// --- (3) crash images
+	tImg := rn.timed("images")
 	seen := map[string]string{}
 	var states []string // "pre" | "post" per image, for the model comparison
 	for k, dir := range imgs {
@@ -263,6 +286,13 @@ func (rn *runner) exec(op *opSpec) {
 		states = append(states, st)
 	}
 
+	tImg()
+	// structure, stated directly on the recorded calls
+	if msg := singleTx(evs); msg != "" {
+		rn.violate("", "single-tx", fmt.Sprintf("%s: %s; trace: %s", op.kind, msg, trace))
+		return
+	}
+
 	// --- (4) correspondence with the Lean model: trace shape and post-crash state at every boundary
 	if op.model != nil {
 		rn.checkModel(op, trace, evs, states)
@@ -272,14 +302,59 @@ func (rn *runner) exec(op *opSpec) {
 	}
 
 	// --- (5) every call k faulted on a fork of the pre-state, then the same input again
+	defer rn.timed("faults")()
+	var ks []int
 	for k := range evs {
-		if !r.TimeLeft() {
-			break
+		if evs[k].Kind != evRollback && evs[k].Kind != evSRollback {
+			ks = append(ks, k)
 		}
-		if evs[k].Kind == evRollback || evs[k].Kind == evSRollback {
+	}
+	if len(ks) == 0 {
+		if op.after != nil {
+			op.after()
+		}
+		return
+	}
+	postSem := post.sem(fx)
+	// one fork takes every fault in turn; isolated single-fault forks for a sample of the calls (all of
+	// them in the thorough tier)
+	jobs := [][]int{ks}
+	if r.Quick() {
+		for _, i := range r.Perm(len(ks))[:min(2, len(ks))] {
+			jobs = append(jobs, []int{ks[i]})
+		}
+	} else {
+		for _, k := range ks {
+			jobs = append(jobs, []int{k})
+		}
+	}
+	results := make([]*forkResult, len(jobs))
+	const workers = 4
+	for lo := 0; lo < len(jobs) && (lo == 0 || r.TimeLeft()); lo += workers {
+		hi := min(lo+workers, len(jobs))
+		var wg sync.WaitGroup
+		for i := lo; i < hi; i++ {
+			wg.Add(1)
+			go func(i int) {
+				defer wg.Done()
+				results[i] = rn.faultOnFork(op, jobs[i], evs, imgs[0], pre, post, postSem)
+			}(i)
+		}
+		wg.Wait()
+	}
+	for _, fr := range results {
+		if fr == nil {
 			continue
 		}
-		rn.faultOnFork(op, k, evs[k], imgs[0], pre, post)
+		if fr.fatal != "" {
+			r.Fatal(fr.fatal)
+		}
+		for _, c := range fr.counts {
+			r.Count(c)
+		}
+		for _, v := range fr.viols {
+			rn.violate(v.sig, v.stream, v.desc)
+		}
 		if rn.dead {
 			return
 		}
@@ -331,107 +406,153 @@ func (rn *runner) checkImage(op *opSpec, k, n int, dir string, pre, post *Dump) 
 	return st
 }
 
-func (rn *runner) fork(op *opSpec, src string) *World {
-	dir := rn.fx.newDir("fork")
-	if err := copyImage(src, dir); err != nil {
-		rn.r.Fatal("fork copy: " + err.Error())
-	}
-	w, err := rn.fx.open(dir, true)
-	if err != nil {
-		rn.r.Fatal("fork open: " + err.Error())
-	}
-	if !op.freshDB {
-		if err := w.attach(); err != nil {
-			rn.r.Fatal("fork attach: " + err.Error())
-		}
-	}
-	return w
+type viol struct{ sig, stream, desc string }
+
+// forkResult is what one faulted fork reports; forks run concurrently and are merged in call order.
+type forkResult struct {
+	counts []string
+	viols  []viol
+	fatal  string
 }
 
-func (rn *runner) faultOnFork(op *opSpec, k int, ev Event, preImg string, pre, post *Dump) {
-	r := rn.r
-	w := rn.fork(op, preImg)
-	defer func() {
-		w.close()
-		os.RemoveAll(w.dir)
-	}()
-	at := fmt.Sprintf("call %d (%s)", k, evNames[ev.Kind])
-	r.Count("fault.fork")
-	r.Count("fault.at." + evNames[ev.Kind])
+func (fr *forkResult) count(k string) { fr.counts = append(fr.counts, k) }
+func (fr *forkResult) violate(sig, stream, desc string) bool {
+	fr.viols = append(fr.viols, viol{sig, stream, desc})
+	return sig == ""
+}
+
+// faultOnFork: on a fork of the pre-state (database copied, reopened, live objects rebuilt with the
+// real constructors) storage call k fails; then the same input is applied again.
+//
+// ks lists the calls to fail, one after the other, on the same fork: each further attempt is at the same
+// time the retry of the previous failed one up to its own fault; after the last one the input is applied
+// without a fault and must lead to the post-state. A single-element ks is the isolated single-fault case.
+func (rn *runner) faultOnFork(op *opSpec, ks []int, evs []Event, preImg string, pre, post *Dump, postSem string) (fr *forkResult) {
+	fr = &forkResult{}
+	fx := rn.fx
+	dir := fx.newDir("fork")
+	defer os.RemoveAll(dir)
+	if err := copyImage(preImg, dir); err != nil {
+		fr.fatal = "fork copy: " + err.Error()
+		return
+	}
+	w, err := fx.open(dir, true)
+	if err != nil {
+		fr.fatal = "fork open: " + err.Error()
+		return
+	}
+	defer func() { w.close() }()
+	if !op.freshDB {
+		if err := w.attach(); err != nil {
+			fr.fatal = "fork attach: " + err.Error()
+			return
+		}
+	}
+	fr.count("fault.fork")
+	if len(ks) == 1 {
+		fr.count("fault.fork.single")
+	}
 	if op.rejectFirst != nil {
 		// the fork must be in the same live situation as the main world was: rejected once
 		_ = safeRun(op.rejectFirst, w)
 	}
-	evs1, _, err1 := rn.attempt(w, op.run, false, k)
-	if injectedAt(evs1) != k {
-		r.Fatal(fmt.Sprintf("%s: fork did not reach call %d (trace %s)", op.desc, k, renderTrace(evs1, rn.fx.in.get, rn.fx.collName)))
-	}
-	d1 := rn.dump(w)
-	switch {
-	case d1.full() == pre.full():
-	case d1.full() == post.full() && err1 == nil:
-		r.Count("fault.swallowed")
-	default:
-		rn.violate("", "fault-state", fmt.Sprintf("%s: after a fault at %s (err=%v) the durable state is not the state before the operation: %s", op.kind, at, err1, d1.diff(pre)))
-		return
-	}
-	if err1 == nil {
-		rn.violate("", "fault-state", fmt.Sprintf("%s: a storage fault at %s was swallowed: the operation reported success", op.kind, at))
-		return
-	}
-	if p := liveAgrees(w, d1, op.trees, op.acl); len(p) > 0 {
-		rn.violate(classify(op, "live", p[0]), "fault-live", fmt.Sprintf("%s: after a fault at %s: %s", op.kind, at, p[0]))
-		if rn.dead {
+	at := ""
+	for i, k := range ks {
+		ev := evs[k]
+		prevAt := at
+		at = fmt.Sprintf("call %d (%s)", k, evNames[ev.Kind])
+		fr.count("fault.at." + evNames[ev.Kind])
+		if i > 0 && op.freshDB {
+			// a failed space creation returns no object; the caller's next attempt starts from a fresh handle
+			if err := w.reopenHandle(); err != nil {
+				fr.violate("", "fault-retry", fmt.Sprintf("%s: database does not reopen after a fault at %s: %v", op.kind, prevAt, err))
+				return
+			}
+		}
+		evs1, _, err1 := rn.attempt(w, op.run, false, k)
+		if injectedAt(evs1) != k {
+			if err1 == errHang || (err1 != nil && i > 0) {
+				fr.violate(classify(op, "retry", err1.Error()), "fault-retry", fmt.Sprintf("%s: after a fault at %s the same input is rejected: %v", op.kind, prevAt, err1))
+				return
+			}
+			fr.fatal = fmt.Sprintf("%s: fork did not reach call %d (err=%v, trace %s)", op.desc, k, err1, renderTrace(evs1, fx.in.get, fx.collName))
+			return
+		}
+		d1, err := dumpDB(w.real, fx)
+		if err != nil {
+			fr.fatal = "dump: " + err.Error()
+			return
+		}
+		if d1.full() != pre.full() {
+			fr.violate("", "fault-state", fmt.Sprintf("%s: after a fault at %s (err=%v) the durable state is not the state before the operation: %s", op.kind, at, err1, d1.diff(pre)))
+			return
+		}
+		if err1 == nil {
+			fr.violate("", "fault-state", fmt.Sprintf("%s: a storage fault at %s was swallowed: the operation reported success", op.kind, at))
+			return
+		}
+		if p := liveAgrees(w, d1, op.trees, op.acl); len(p) > 0 {
+			fr.violate(classify(op, "live", p[0]), "fault-live", fmt.Sprintf("%s: after a fault at %s: %s", op.kind, at, p[0]))
 			return
 		}
 	}
 	if op.freshDB {
 		// a failed space creation returns no object; the caller's next attempt starts from a fresh handle
 		if err := w.reopenHandle(); err != nil {
-			rn.violate("", "fault-retry", fmt.Sprintf("%s: database does not reopen after a fault at %s: %v", op.kind, at, err))
+			fr.violate("", "fault-retry", fmt.Sprintf("%s: database does not reopen after a fault at %s: %v", op.kind, at, err))
 			return
 		}
 	}
 	_, _, err2 := rn.attempt(w, op.run, false, -1)
 	if err2 != nil {
-		rn.violate(classify(op, "retry", err2.Error()), "fault-retry", fmt.Sprintf("%s: after a fault at %s the same input is rejected: %v", op.kind, at, err2))
+		fr.violate(classify(op, "retry", err2.Error()), "fault-retry", fmt.Sprintf("%s: after a fault at %s the same input is rejected: %v", op.kind, at, err2))
 		return
 	}
-	d2 := rn.dump(w)
-	if d2.sem(rn.fx) != post.sem(rn.fx) {
-		rn.violate(classify(op, "retry-state", ""), "fault-retry", fmt.Sprintf("%s: after a fault at %s and a successful retry storage holds {%s}, the operation's post-state is {%s}", op.kind, at, d2.sem(rn.fx), post.sem(rn.fx)))
+	d2, err := dumpDB(w.real, fx)
+	if err != nil {
+		fr.fatal = "dump: " + err.Error()
+		return
+	}
+	if sem := d2.sem(fx); sem != postSem {
+		fr.violate(classify(op, "retry-state", ""), "fault-retry", fmt.Sprintf("%s: after a fault at %s and a successful retry storage holds {%s}, the operation's post-state is {%s}", op.kind, at, sem, postSem))
 		return
 	}
 	if p := liveAgrees(w, d2, op.trees, op.acl); len(p) > 0 {
-		rn.violate(classify(op, "live", p[0]), "fault-live", fmt.Sprintf("%s: after a fault at %s and a successful retry: %s", op.kind, at, p[0]))
-		if rn.dead {
+		if fr.violate(classify(op, "live", p[0]), "fault-live", fmt.Sprintf("%s: after a fault at %s and a successful retry: %s", op.kind, at, p[0])) {
 			return
 		}
 	}
 	// the retried state as a fresh process finds it (once per distinct state)
-	if rn.durableSeen[d2.full()] {
-		r.Count("fault.durable.deduped")
+	rn.mu.Lock()
+	seen := rn.durableSeen[postSem]
+	rn.durableSeen[postSem] = true
+	rn.mu.Unlock()
+	if seen {
+		fr.count("fault.durable.deduped")
 		return
 	}
-	rn.durableSeen[d2.full()] = true
-	img := rn.fx.newDir("img")
+	img := fx.newDir("img")
 	defer os.RemoveAll(img)
 	if err := copyImage(w.dir, img); err != nil {
-		r.Fatal("copy: " + err.Error())
+		fr.fatal = "copy: " + err.Error()
+		return
 	}
-	pw, err := rn.fx.open(img, false)
+	pw, err := fx.open(img, false)
 	if err != nil {
-		rn.violate("", "fault-retry", fmt.Sprintf("%s: database does not reopen after fault+retry: %v", op.kind, err))
+		fr.violate("", "fault-retry", fmt.Sprintf("%s: database does not reopen after fault+retry: %v", op.kind, err))
 		return
 	}
 	defer pw.close()
-	pd, err := dumpDB(pw.real, rn.fx)
+	pd, err := dumpDB(pw.real, fx)
 	if err != nil {
-		r.Fatal("dump: " + err.Error())
+		fr.fatal = "dump: " + err.Error()
+		return
 	}
+	fr.count("fault.durable.reopened")
 	if p := checkDurable(pw, pd); len(p) > 0 {
-		rn.violate(classify(op, "retry-state", p[0]), "fault-retry", fmt.Sprintf("%s: after a fault at %s and a successful retry: %s", op.kind, at, strings.Join(p, "; ")))
+		fr.violate(classify(op, "retry-state", p[0]), "fault-retry", fmt.Sprintf("%s: after a fault at %s and a successful retry: %s", op.kind, at, strings.Join(p, "; ")))
 	}
+	return
 }
 
 // ---------------------------------------------------------------------------------------------
